@@ -1,11 +1,15 @@
 (** Proofs about the model of Fee.v (property C07).
 
     Facts that depend on the constants regenerated from the source enter only
-    through explicit premises - [consts_exact = true], [cfg_vcc cf = true],
-    [init_minimal cf = true] - which Properties/C07.v discharges by
-    computation against Generated/TxsizesConsts.v.  This file therefore
-    compiles whatever the source says; only Properties/C07.v stops compiling
-    when a premise is false for the current source. *)
+    through explicit premises - [consts_sane = true], [sizes_cover unc = true],
+    [relay_floor_exact = true], [change_sizes_cover = true],
+    [cfg_vcc cf = true], [init_minimal cf = true] - which Properties/C07.v
+    discharges by computation against Generated/TxsizesConsts.v.  The size
+    constants enter through INEQUALITIES only (a more conservative constant
+    keeps every proof).  This file therefore compiles whatever the source
+    says; only Properties/C07.v stops compiling when a premise is false for
+    the current source. *)
+From Coq Require Import Permutation.
 From Verif Require Import Base.Prelude Generated.TxsizesConsts Fee.Fee.
 Local Open Scope Z_scope.
 
@@ -20,18 +24,29 @@ Proof. unfold varint_size. intros.
 Lemma varint_size_small n : n < 253 -> varint_size n = 1.
 Proof. unfold varint_size. intros. destruct (n <? 253) eqn:E; lia. Qed.
 
-Lemma consts_exact_spec : consts_exact = true ->
-  redeem_p2pkh_input_size = 149 /\ redeem_p2wpkh_input_size = 41 /\ redeem_p2tr_input_size = 41
-  /\ redeem_nested_p2wpkh_input_size = 64 /\ redeem_p2wpkh_input_witness_weight = 109
-  /\ redeem_p2tr_input_witness_weight = 67 /\ witness_round_add = 3 /\ fee_divisor = 1000
-  /\ default_relay_fee_per_kb = 1000.
-Proof. unfold consts_exact. lia. Qed.
+Lemma consts_sane_spec : consts_sane = true ->
+  0 <= est_in_p2pkh /\ 0 <= est_in_p2wpkh /\ 0 <= est_in_p2tr /\ 0 <= est_in_nested
+  /\ 0 <= est_ww_marker /\ 0 <= est_ww_p2wpkh /\ 0 <= est_ww_p2tr /\ 0 <= est_ww_nested
+  /\ 0 <= witness_round_add /\ fee_divisor = 1000 /\ 1000 <= default_relay_fee_per_kb.
+Proof. unfold consts_sane. lia. Qed.
 
-Lemma fee_for_mono rate s1 s2 : consts_exact = true -> 0 <= rate -> 1000 <= rate * s1 -> s1 <= s2 ->
+Lemma consts_sane_divisor : consts_sane = true -> fee_divisor = 1000.
+Proof. intros H. apply consts_sane_spec in H. tauto. Qed.
+
+Lemma consts_sane_relay : consts_sane = true -> 1000 <= default_relay_fee_per_kb.
+Proof. intros H. apply consts_sane_spec in H. tauto. Qed.
+
+Lemma sizes_cover_spec unc : sizes_cover unc = true ->
+  (forall k, worst_weight unc k <= est_weight k) /\ 2 <= est_ww_marker /\ 3 <= witness_round_add.
+Proof.
+  unfold sizes_cover. cbn [forallb]. rewrite !andb_true_iff, !Z.leb_le.
+  intros (((K1&K2&K3&K4&_)&HM)&HR). split; [|split; assumption]. intros k; destruct k; assumption.
+Qed.
+
+Lemma fee_for_mono rate s1 s2 : fee_divisor = 1000 -> 0 <= rate -> 1000 <= rate * s1 -> s1 <= s2 ->
   fee_for rate s1 <= fee_for rate s2.
 Proof.
-  intros HC Hr H1 H2. apply consts_exact_spec in HC. 
-  destruct HC as (_&_&_&_&_&_&_&HD&_).
+  intros HD Hr H1 H2.
   unfold fee_for. rewrite HD. unfold max_satoshi.
   assert (rate * s1 <= rate * s2) by nia.
   assert (Z.quot (rate*s1) 1000 <= Z.quot (rate*s2) 1000) by (apply Z.quot_le_mono; lia).
@@ -42,9 +57,9 @@ Proof.
   repeat match goal with |- context [?a <? ?b] => destruct (a <? b) eqn:?; simpl end; lia.
 Qed.
 
-Lemma fee_for_pos rate size : consts_exact = true -> 0 < rate -> 0 <= size -> 0 < fee_for rate size.
+Lemma fee_for_pos rate size : fee_divisor = 1000 -> 0 < rate -> 0 <= size -> 0 < fee_for rate size.
 Proof.
-  intros HC Hr Hs. apply consts_exact_spec in HC. destruct HC as (_&_&_&_&_&_&_&HD&_).
+  intros HD Hr Hs.
   unfold fee_for. rewrite HD. unfold max_satoshi.
   assert (0 <= Z.quot (rate*size) 1000) by (apply Z.quot_pos; nia).
   set (q := Z.quot (rate*size) 1000) in *. clearbody q.
@@ -72,10 +87,10 @@ Qed.
 (** Above the point where the "fee 0 becomes the rate" rule can fire, the fee
     is the rate applied to the size per 1000 bytes, rounded down, capped at
     the money supply. *)
-Lemma fee_for_spec rate size : consts_exact = true -> 0 <= rate -> 1000 <= rate * size ->
+Lemma fee_for_spec rate size : fee_divisor = 1000 -> 0 <= rate -> 1000 <= rate * size ->
   fee_for rate size = Z.min (rate * size / 1000) max_satoshi.
 Proof.
-  intros HC Hr Hs. apply consts_exact_spec in HC. destruct HC as (_&_&_&_&_&_&_&HD&_).
+  intros HD Hr Hs.
   unfold fee_for. rewrite HD. rewrite Z.quot_div_nonneg by lia.
   assert (1 <= rate * size / 1000) by (apply Z.div_le_lower_bound; lia).
   set (q := rate*size/1000) in *. clearbody q. unfold max_satoshi.
@@ -93,17 +108,31 @@ Proof.
   change (Z.quot 107 4) with 26. destruct wit; lia.
 Qed.
 
-Lemma is_dust_spec v sz wit : consts_exact = true -> 0 <= sz -> 0 <= v ->
-  (is_dust v sz wit default_relay_fee_per_kb = true <-> v < dust_threshold sz wit).
+(** not dust under a relay floor of at least 1000 sat/kvB = at least the
+    network's dust threshold *)
+Lemma is_dust_false_ge v sz wit relay : 0 <= sz -> 0 <= v -> 1000 <= relay ->
+  is_dust v sz wit relay = false -> dust_threshold sz wit <= v.
 Proof.
-  intros HC Hs Hv. apply consts_exact_spec in HC. destruct HC as (_&_&_&_&_&_&_&_&HR).
-  unfold is_dust. rewrite HR. pose proof (dust_threshold_pos sz wit Hs) as HT.
+  intros Hs Hv Hr. unfold is_dust. pose proof (dust_threshold_pos sz wit Hs) as HT.
   set (T := dust_threshold sz wit) in *. clearbody T.
-  rewrite Z.quot_div_nonneg by lia. rewrite Z.ltb_lt. split; intros H.
-  - destruct (Z_lt_ge_dec v T) as [|G]; [assumption|exfalso].
-    assert (1000 <= v * 1000 / T) by (apply Z.div_le_lower_bound; nia). lia.
-  - apply Z.div_lt_upper_bound; nia.
+  rewrite Z.quot_div_nonneg by lia. rewrite Z.ltb_ge. intros H.
+  destruct (Z_lt_ge_dec v T) as [Hlt|]; [exfalso|lia].
+  assert (v * 1000 / T < 1000) by (apply Z.div_lt_upper_bound; nia). lia.
 Qed.
+
+(** dust at exactly the network's floor = below the dust threshold *)
+Lemma is_dust_true_lt v sz wit : 0 <= sz -> 0 <= v ->
+  is_dust v sz wit 1000 = true -> v < dust_threshold sz wit.
+Proof.
+  intros Hs Hv. unfold is_dust. pose proof (dust_threshold_pos sz wit Hs) as HT.
+  set (T := dust_threshold sz wit) in *. clearbody T.
+  rewrite Z.quot_div_nonneg by lia. rewrite Z.ltb_lt. intros H.
+  destruct (Z_lt_ge_dec v T) as [|G]; [assumption|exfalso].
+  assert (1000 <= v * 1000 / T) by (apply Z.div_le_lower_bound; nia). lia.
+Qed.
+
+Lemma out_ser_size_mono a b : a <= b -> out_ser_size a <= out_ser_size b.
+Proof. intros H. unfold out_ser_size. pose proof (varint_size_mono a b H). lia. Qed.
 
 (** ** The estimate *)
 Definition counts_nonneg (c : counts) : Prop :=
@@ -120,37 +149,92 @@ Lemma est_vsize_decomp vcc c outs chg :
   est_vsize_gen vcc c outs chg = est_outputs vcc outs chg + est_inputs c.
 Proof. unfold est_vsize_gen, est_outputs, est_inputs. lia. Qed.
 
-Lemma est_inputs_mono c d : consts_exact = true -> counts_nonneg c -> counts_le c d ->
-  est_inputs c <= est_inputs d.
+(** the numerator of the rounded witness term *)
+Definition est_ww (c : counts) : Z :=
+  (if 0 <? n_p2wpkh c + n_nested c + n_p2tr c then
+     est_ww_marker + varint_size (n_p2wpkh c + n_nested c + n_p2tr c)
+     + n_p2wpkh c * est_ww_p2wpkh + n_p2tr c * est_ww_p2tr + n_nested c * est_ww_nested
+   else 0) + witness_round_add.
+
+(** the part that is linear in the counts *)
+Definition est_lin (c : counts) : Z :=
+  n_p2pkh c * est_in_p2pkh + n_p2wpkh c * est_in_p2wpkh + n_p2tr c * est_in_p2tr + n_nested c * est_in_nested.
+
+Lemma est_ww_nonneg c : consts_sane = true -> counts_nonneg c -> 0 <= est_ww c.
 Proof.
-  intros HC (H1&H2&H3&H4) (L1&L2&L3&L4). apply consts_exact_spec in HC.
-  destruct HC as (E1&E2&E3&E4&E5&E6&E7&_).
-  unfold est_inputs, witness_scale_factor. rewrite E1, E2, E3, E4, E5, E6, E7.
-  pose proof (varint_size_mono (n_p2pkh c + n_p2tr c + n_p2wpkh c + n_nested c)
-                (n_p2pkh d + n_p2tr d + n_p2wpkh d + n_nested d) ltac:(lia)).
+  intros HS (H1&H2&H3&H4). apply consts_sane_spec in HS.
+  destruct HS as (_&_&_&_&M&W1&W2&W3&R&_). unfold est_ww.
+  pose proof (varint_size_bounds (n_p2wpkh c + n_nested c + n_p2tr c)).
+  pose proof (Z.mul_nonneg_nonneg _ _ H3 W1). pose proof (Z.mul_nonneg_nonneg _ _ H2 W2).
+  pose proof (Z.mul_nonneg_nonneg _ _ H4 W3).
+  destruct (0 <? _); lia.
+Qed.
+
+Lemma est_inputs_unfold c : consts_sane = true -> counts_nonneg c ->
+  est_inputs c = varint_size (n_p2pkh c + n_p2tr c + n_p2wpkh c + n_nested c) + est_lin c + est_ww c / 4.
+Proof.
+  intros HS Hc. pose proof (est_ww_nonneg c HS Hc) as Hn.
+  unfold est_inputs, est_lin, witness_scale_factor. fold (est_ww c).
+  rewrite Z.quot_div_nonneg by lia. lia.
+Qed.
+
+Lemma est_lin_mono c d : consts_sane = true -> counts_le c d -> est_lin c <= est_lin d.
+Proof.
+  intros HS (L1&L2&L3&L4). apply consts_sane_spec in HS.
+  destruct HS as (C1&C2&C3&C4&_). unfold est_lin.
+  pose proof (Z.mul_le_mono_nonneg_r _ _ _ C1 L1). pose proof (Z.mul_le_mono_nonneg_r _ _ _ C2 L3).
+  pose proof (Z.mul_le_mono_nonneg_r _ _ _ C3 L2). pose proof (Z.mul_le_mono_nonneg_r _ _ _ C4 L4). lia.
+Qed.
+
+Lemma est_lin_nonneg c : consts_sane = true -> counts_nonneg c -> 0 <= est_lin c.
+Proof.
+  intros HS (H1&H2&H3&H4). apply consts_sane_spec in HS.
+  destruct HS as (C1&C2&C3&C4&_). unfold est_lin.
+  pose proof (Z.mul_nonneg_nonneg _ _ H1 C1). pose proof (Z.mul_nonneg_nonneg _ _ H3 C2).
+  pose proof (Z.mul_nonneg_nonneg _ _ H2 C3). pose proof (Z.mul_nonneg_nonneg _ _ H4 C4). lia.
+Qed.
+
+Lemma est_ww_mono c d : consts_sane = true -> counts_nonneg c -> counts_le c d -> est_ww c <= est_ww d.
+Proof.
+  intros HS (H1&H2&H3&H4) (L1&L2&L3&L4). apply consts_sane_spec in HS.
+  destruct HS as (_&_&_&_&M&W1&W2&W3&R&_). unfold est_ww.
   pose proof (varint_size_mono (n_p2wpkh c + n_nested c + n_p2tr c)
                 (n_p2wpkh d + n_nested d + n_p2tr d) ltac:(lia)).
   pose proof (varint_size_bounds (n_p2wpkh d + n_nested d + n_p2tr d)).
+  pose proof (Z.mul_le_mono_nonneg_r _ _ _ W1 L3). pose proof (Z.mul_le_mono_nonneg_r _ _ _ W2 L2).
+  pose proof (Z.mul_le_mono_nonneg_r _ _ _ W3 L4).
+  assert (0 <= n_p2wpkh d * est_ww_p2wpkh) by (apply Z.mul_nonneg_nonneg; lia).
+  assert (0 <= n_p2tr d * est_ww_p2tr) by (apply Z.mul_nonneg_nonneg; lia).
+  assert (0 <= n_nested d * est_ww_nested) by (apply Z.mul_nonneg_nonneg; lia).
   destruct (0 <? n_p2wpkh c + n_nested c + n_p2tr c) eqn:Ec,
            (0 <? n_p2wpkh d + n_nested d + n_p2tr d) eqn:Ed; lia.
 Qed.
 
-Lemma est_size_mono vcc c d outs chg : consts_exact = true -> counts_nonneg c -> counts_le c d ->
+Lemma counts_le_nonneg c d : counts_nonneg c -> counts_le c d -> counts_nonneg d.
+Proof. unfold counts_nonneg, counts_le. lia. Qed.
+
+Lemma est_inputs_mono c d : consts_sane = true -> counts_nonneg c -> counts_le c d ->
+  est_inputs c <= est_inputs d.
+Proof.
+  intros HS Hc Hl. pose proof (counts_le_nonneg c d Hc Hl) as Hd.
+  rewrite (est_inputs_unfold c HS Hc), (est_inputs_unfold d HS Hd).
+  pose proof (est_lin_mono c d HS Hl). pose proof (est_ww_mono c d HS Hc Hl).
+  pose proof (Z.div_le_mono (est_ww c) (est_ww d) 4 ltac:(lia) ltac:(assumption)).
+  destruct Hc as (Nc1&Nc2&Nc3&Nc4). destruct Hl as (L1&L2&L3&L4).
+  pose proof (varint_size_mono (n_p2pkh c + n_p2tr c + n_p2wpkh c + n_nested c)
+                (n_p2pkh d + n_p2tr d + n_p2wpkh d + n_nested d) ltac:(lia)). lia.
+Qed.
+
+Lemma est_size_mono vcc c d outs chg : consts_sane = true -> counts_nonneg c -> counts_le c d ->
   est_vsize_gen vcc c outs chg <= est_vsize_gen vcc d outs chg.
 Proof. intros. rewrite !est_vsize_decomp. pose proof (est_inputs_mono c d); lia. Qed.
 
-Lemma est_inputs_nonneg c : consts_exact = true -> counts_nonneg c -> 1 <= est_inputs c.
+Lemma est_inputs_nonneg c : consts_sane = true -> counts_nonneg c -> 1 <= est_inputs c.
 Proof.
-  intros HC (H1&H2&H3&H4). apply consts_exact_spec in HC.
-  destruct HC as (E1&E2&E3&E4&E5&E6&E7&_).
-  unfold est_inputs, witness_scale_factor. rewrite E1, E2, E3, E4, E5, E6, E7.
-  pose proof (varint_size_bounds (n_p2pkh c + n_p2tr c + n_p2wpkh c + n_nested c)).
-  pose proof (varint_size_bounds (n_p2wpkh c + n_nested c + n_p2tr c)).
-  destruct (0 <? n_p2wpkh c + n_nested c + n_p2tr c) eqn:Ec.
-  - rewrite Z.quot_div_nonneg by lia.
-    assert (0 <= (2 + varint_size (n_p2wpkh c + n_nested c + n_p2tr c) + n_p2wpkh c * 109 + n_p2tr c * 67 + n_nested c * 109 + 3) / 4)
-      by (apply Z.div_pos; lia). lia.
-  - change (Z.quot (0 + 3) 4) with 0. lia.
+  intros HS Hc. rewrite (est_inputs_unfold c HS Hc).
+  pose proof (est_lin_nonneg c HS Hc). pose proof (est_ww_nonneg c HS Hc).
+  pose proof (Z.div_pos (est_ww c) 4 ltac:(assumption) ltac:(lia)).
+  pose proof (varint_size_bounds (n_p2pkh c + n_p2tr c + n_p2wpkh c + n_nested c)). lia.
 Qed.
 
 Definition outs_wf (outs : list txout) : Prop := Forall (fun o => 0 <= out_size o) outs.
@@ -169,7 +253,7 @@ Proof.
   destruct (0 <? chg); lia.
 Qed.
 
-Lemma est_size_lb vcc c outs chg : consts_exact = true -> counts_nonneg c -> outs_wf outs -> 0 <= chg ->
+Lemma est_size_lb vcc c outs chg : consts_sane = true -> counts_nonneg c -> outs_wf outs -> 0 <= chg ->
   10 <= est_vsize_gen vcc c outs chg.
 Proof.
   intros. rewrite est_vsize_decomp. pose proof (est_outputs_lb vcc outs chg). pose proof (est_inputs_nonneg c). lia.
@@ -211,80 +295,94 @@ Qed.
 
 (** ** The estimate bounds the signed size *)
 
-(** Upper bounds on the signature lengths.  What the signers produce is
-    inside: btcec ECDSA signatures are low-S, so their DER encoding has 8..71
-    bytes; BIP-340 signatures have 64 bytes (+1 with an explicit sighash type).
-    [mixed] = the transaction has witness data: then every P2PKH input also
-    carries one byte of (empty) witness, which EstimateVirtualSize does not
-    count, and the bound for its signature is 71 instead of 72. *)
-Definition sig_ok (mixed : bool) (i : signed_input) : Prop :=
-  match fst i with
-  | P2PKH => 0 <= snd i <= (if mixed then 71 else 72)
-  | P2WPKH | NP2WPKH => 0 <= snd i <= 72
-  | P2TR => 0 <= snd i <= 65
+(** What a signed input may look like.  ECDSA kinds: DER signature of at most
+    72 bytes (btcec signs low-S: 8..71, in practice 70 or 71; 72 is the
+    encoding's maximum for a high-S signature), to which the signer appends
+    the sighash byte; public key serialized compressed (33 bytes) - or, for
+    P2PKH only and only when [unc] says the constants cover it, uncompressed
+    (65 bytes).  P2TR key spend: 64-byte BIP-340 signature, 65 with an explicit
+    sighash byte.  [mixed] = the transaction has witness data: then every
+    P2PKH input also carries one byte of (empty) witness, which
+    EstimateVirtualSize does not count, and the bound for its signature is 71
+    instead of 72. *)
+Definition sig_ok (mixed unc : bool) (i : sinput) : Prop :=
+  match si_kind i with
+  | P2PKH => 0 <= si_sig i <= (if mixed then 71 else 72) /\ (si_pk i = 33 \/ (unc = true /\ si_pk i = 65))
+  | P2WPKH | NP2WPKH => 0 <= si_sig i <= 72 /\ si_pk i = 33
+  | P2TR => 0 <= si_sig i <= 65
   end.
 
-Definition admissible (ins : list signed_input) : Prop := Forall (sig_ok (has_witness ins)) ins.
+Definition admissible (unc : bool) (ins : list sinput) : Prop := Forall (sig_ok (has_witness ins) unc) ins.
 
-Definition est_in_weight (k : kind) : Z :=
-  match k with
-  | P2PKH => 4 * 149
-  | P2WPKH => 4 * 41 + 109
-  | P2TR => 4 * 41 + 67
-  | NP2WPKH => 4 * 64 + 109
-  end.
-
-Lemma in_weight_le m i : sig_ok m i ->
-  4 * in_base i + (if m then in_wit i else 0) <= est_in_weight (fst i).
+Lemma in_weight_le m unc i : sig_ok m unc i ->
+  4 * in_base i + (if m then in_wit i else 0) <= worst_weight unc (si_kind i).
 Proof.
-  unfold sig_ok, in_base, in_wit, est_in_weight. destruct i as [k s]; cbn [fst snd].
+  unfold sig_ok, in_base, in_wit, worst_weight. destruct i as [k s pk]; cbn [si_kind si_sig si_pk].
   destruct k; intros H.
-  - rewrite varint_size_small by (destruct m; lia). destruct m; lia.
+  - destruct H as (Hs & [->|(-> & ->)]).
+    + rewrite varint_size_small by (destruct m; lia). destruct m, unc; lia.
+    + rewrite varint_size_small by (destruct m; lia). destruct m; lia.
   - destruct m; lia.
-  - destruct m; lia.
-  - destruct m; lia.
+  - destruct H as (Hs & ->). destruct m; lia.
+  - destruct H as (Hs & ->). destruct m; lia.
 Qed.
 
-Lemma sum_in_weight_le m ins : Forall (sig_ok m) ins ->
+Lemma sum_in_weight_le m unc ins : Forall (sig_ok m unc) ins ->
   4 * sum_in_base ins + (if m then sum_in_wit ins else 0)
-  <= fold_right (fun i a => est_in_weight (fst i) + a) 0 ins.
+  <= fold_right (fun i a => worst_weight unc (si_kind i) + a) 0 ins.
 Proof.
   induction 1 as [|i l Hi Hl IH]; cbn [sum_in_base sum_in_wit fold_right]; [destruct m; lia|].
-  pose proof (in_weight_le m i Hi). unfold sum_in_base, sum_in_wit in IH. destruct m; lia.
+  pose proof (in_weight_le m unc i Hi). unfold sum_in_base, sum_in_wit in IH. destruct m; lia.
 Qed.
 
-Lemma in_nonneg m i : sig_ok m i -> 0 <= in_base i /\ 0 <= in_wit i.
+Lemma in_nonneg m unc i : sig_ok m unc i -> 0 <= in_base i /\ 0 <= in_wit i.
 Proof.
-  destruct i as [k s]. unfold sig_ok, in_base, in_wit. cbn [fst snd]. intros Hi.
-  pose proof (varint_size_bounds (1 + (s + 1) + 1 + 33)). destruct k, m; lia.
+  destruct i as [k s pk]. unfold sig_ok, in_base, in_wit. cbn [si_kind si_sig si_pk]. intros Hi.
+  pose proof (varint_size_bounds (1 + (s + 1) + 1 + pk)). destruct k, m; lia.
 Qed.
 
-Lemma sum_in_nonneg m ins : Forall (sig_ok m) ins -> 0 <= sum_in_base ins /\ 0 <= sum_in_wit ins.
+Lemma sum_in_nonneg m unc ins : Forall (sig_ok m unc) ins -> 0 <= sum_in_base ins /\ 0 <= sum_in_wit ins.
 Proof.
   unfold sum_in_base, sum_in_wit.
   induction 1 as [|i l Hi Hl IH]; cbn [fold_right]; [lia|].
-  pose proof (in_nonneg m i Hi). lia.
+  pose proof (in_nonneg m unc i Hi). lia.
 Qed.
 
-Lemma sum_est_in_weight (ins : list signed_input) :
-  let c := counts_of (map fst ins) in
-  fold_right (fun i a => est_in_weight (fst i) + a) 0 ins
-  = 4 * (n_p2pkh c * 149 + n_p2wpkh c * 41 + n_p2tr c * 41 + n_nested c * 64)
-    + n_p2wpkh c * 109 + n_p2tr c * 67 + n_nested c * 109.
+Lemma sum_worst_weight unc (ins : list sinput) :
+  let c := counts_of (map si_kind ins) in
+  fold_right (fun i a => worst_weight unc (si_kind i) + a) 0 ins
+  = n_p2pkh c * worst_weight unc P2PKH + n_p2wpkh c * worst_weight unc P2WPKH
+    + n_p2tr c * worst_weight unc P2TR + n_nested c * worst_weight unc NP2WPKH.
 Proof.
-  induction ins as [|i l IH]; [reflexivity|]. cbn zeta in *.
-  cbn [fold_right map counts_of]. fold (counts_of (map fst l)). rewrite IH.
-  destruct i as [k s]; cbn [fst]. destruct k; cbn [est_in_weight add_kind n_p2pkh n_p2tr n_p2wpkh n_nested]; lia.
+  induction ins as [|i l IH]; [cbn; lia|]. cbn zeta in *.
+  cbn [fold_right map counts_of]. fold (counts_of (map si_kind l)). rewrite IH.
+  set (w1 := worst_weight unc P2PKH). set (w2 := worst_weight unc P2WPKH).
+  set (w3 := worst_weight unc P2TR). set (w4 := worst_weight unc NP2WPKH).
+  destruct i as [k s pk]; cbn [si_kind]. destruct k; cbn [add_kind n_p2pkh n_p2tr n_p2wpkh n_nested]; fold w1 w2 w3 w4; lia.
 Qed.
 
-Lemma has_witness_counts (ins : list signed_input) :
-  let c := counts_of (map fst ins) in
+(** what the estimate allots to the inputs, as a weight *)
+Lemma sum_worst_le_est unc c : sizes_cover unc = true -> counts_nonneg c ->
+  n_p2pkh c * worst_weight unc P2PKH + n_p2wpkh c * worst_weight unc P2WPKH
+    + n_p2tr c * worst_weight unc P2TR + n_nested c * worst_weight unc NP2WPKH
+  <= 4 * est_lin c + (n_p2wpkh c * est_ww_p2wpkh + n_p2tr c * est_ww_p2tr + n_nested c * est_ww_nested).
+Proof.
+  intros HC (H1&H2&H3&H4). apply sizes_cover_spec in HC. destruct HC as (HK&_).
+  pose proof (Z.mul_le_mono_nonneg_l _ _ _ H1 (HK P2PKH)) as K1.
+  pose proof (Z.mul_le_mono_nonneg_l _ _ _ H3 (HK P2WPKH)) as K2.
+  pose proof (Z.mul_le_mono_nonneg_l _ _ _ H2 (HK P2TR)) as K3.
+  pose proof (Z.mul_le_mono_nonneg_l _ _ _ H4 (HK NP2WPKH)) as K4.
+  unfold est_weight in K1, K2, K3, K4. unfold est_lin. lia.
+Qed.
+
+Lemma has_witness_counts (ins : list sinput) :
+  let c := counts_of (map si_kind ins) in
   has_witness ins = (0 <? n_p2wpkh c + n_nested c + n_p2tr c).
 Proof.
   cbn zeta. unfold has_witness. induction ins as [|i l IH]; [reflexivity|].
-  pose proof (counts_of_nonneg (map fst l)) as (N1&N2&N3&N4).
-  cbn [existsb map counts_of fold_right]. fold (counts_of (map fst l)).
-  rewrite IH. destruct i as [k s]; cbn [fst].
+  pose proof (counts_of_nonneg (map si_kind l)) as (N1&N2&N3&N4).
+  cbn [existsb map counts_of fold_right]. fold (counts_of (map si_kind l)).
+  rewrite IH. destruct i as [k s pk]; cbn [si_kind].
   destruct k; cbn [kind_eqb negb orb add_kind n_p2pkh n_p2tr n_p2wpkh n_nested].
   all: try reflexivity; symmetry; apply Z.ltb_lt; lia.
 Qed.
@@ -296,27 +394,31 @@ Lemma sum_values_app a b : sum_values (a ++ b) = sum_values a + sum_values b.
 Proof. unfold sum_values. induction a as [|o a IH]; cbn [app fold_right]; lia. Qed.
 
 (** The key lemma: with the output-count compact-size taken over the count
-    that includes the change output, the estimate is an upper bound of the
-    signed virtual size, whether or not the change output was added. *)
-Lemma est_ge_real ins outs chg v outs' :
-  consts_exact = true -> 0 < chg -> outs_wf outs -> admissible ins ->
-  outs' = outs \/ outs' = outs ++ [mkOut v chg] ->
-  real_vsize ins outs' <= est_vsize_gen true (counts_of (map fst ins)) outs chg.
+    that includes the change output, and a change script no longer than
+    declared, the estimate is an upper bound of the signed virtual size,
+    whether or not the change output was added. *)
+Lemma est_ge_real unc ins outs chg chgr v outs' :
+  consts_sane = true -> sizes_cover unc = true -> 0 < chg -> 0 <= chgr <= chg -> outs_wf outs -> admissible unc ins ->
+  outs' = outs \/ outs' = outs ++ [mkOut v chgr] ->
+  real_vsize ins outs' <= est_vsize_gen true (counts_of (map si_kind ins)) outs chg.
 Proof.
-  intros HC Hchg Hwf Hadm Houts. apply consts_exact_spec in HC.
-  destruct HC as (E1&E2&E3&E4&E5&E6&E7&_).
-  unfold admissible in Hadm. pose proof (sum_in_nonneg _ _ Hadm) as (Nb&Nw).
+  intros HS HC Hchg Hchgr Hwf Hadm Houts.
+  pose proof (counts_of_nonneg (map si_kind ins)) as Hcn.
+  pose proof (sum_worst_le_est unc _ HC Hcn) as HW.
+  pose proof (est_ww_nonneg _ HS Hcn) as Hwwn.
+  rewrite est_vsize_decomp, (est_inputs_unfold _ HS Hcn).
+  apply sizes_cover_spec in HC. destruct HC as (_&HM&HR).
+  unfold admissible in Hadm. pose proof (sum_in_nonneg _ _ _ Hadm) as (Nb&Nw).
   apply sum_in_weight_le in Hadm.
   assert (Hso' : 0 <= sum_out_sizes outs').
   { destruct Houts as [->| ->]; [apply sum_out_sizes_nonneg, Hwf|].
     apply sum_out_sizes_nonneg. apply Forall_app; split; [exact Hwf|]. repeat constructor. cbn. lia. }
-  rewrite sum_est_in_weight in Hadm. cbn zeta in Hadm.
-  pose proof (has_witness_counts ins) as HW. cbn zeta in HW.
-  pose proof (counts_total (map fst ins)) as HT. rewrite map_length in HT.
-  pose proof (counts_of_nonneg (map fst ins)) as (N1&N2&N3&N4).
-  unfold real_vsize, real_weight, real_total, real_base, est_vsize_gen, witness_scale_factor.
-  rewrite E1, E2, E3, E4, E5, E6, E7.
-  set (c := counts_of (map fst ins)) in *. clearbody c.
+  rewrite sum_worst_weight in Hadm. cbn zeta in Hadm.
+  pose proof (has_witness_counts ins) as HWt. cbn zeta in HWt.
+  pose proof (counts_total (map si_kind ins)) as HT. rewrite map_length in HT.
+  destruct Hcn as (N1&N2&N3&N4).
+  unfold real_vsize, real_weight, real_total, real_base, est_outputs, est_ww, witness_scale_factor.
+  set (c := counts_of (map si_kind ins)) in *. clearbody c.
   rewrite HT. assert (Hc : (0 <? chg) = true) by lia. rewrite Hc.
   pose proof (varint_size_bounds chg) as Vc.
   pose proof (varint_size_bounds (n_p2wpkh c + n_nested c + n_p2tr c)) as Vw.
@@ -325,25 +427,32 @@ Proof.
   { destruct Houts as [->| ->].
     - pose proof (varint_size_mono (Z.of_nat (length outs)) (Z.of_nat (length outs) + 1) ltac:(lia)). lia.
     - rewrite sum_out_sizes_app, app_length. cbn [length sum_out_sizes fold_right out_size].
-      unfold out_ser_size. replace (Z.of_nat (length outs + 1)) with (Z.of_nat (length outs) + 1) by lia. lia. }
+      pose proof (out_ser_size_mono chgr chg ltac:(lia)) as Hm. unfold out_ser_size in Hm |- *.
+      replace (Z.of_nat (length outs + 1)) with (Z.of_nat (length outs) + 1) by lia. lia. }
   pose proof (varint_size_bounds (Z.of_nat (length outs'))).
   pose proof (varint_size_bounds (Z.of_nat (length ins))).
   set (vo' := varint_size (Z.of_nat (length outs'))) in *.
   set (vo := varint_size (Z.of_nat (length outs) + 1)) in *.
   set (vi := varint_size (Z.of_nat (length ins))) in *.
   set (so' := sum_out_sizes outs') in *. set (so := sum_out_sizes outs) in *.
-  clearbody vo' vo vi so' so.
-  rewrite HW in *. 
-  destruct (0 <? n_p2wpkh c + n_nested c + n_p2tr c) eqn:Ew;
-    rewrite !Z.quot_div_nonneg by lia; lia.
+  set (lin := est_lin c) in *.
+  set (p1 := n_p2wpkh c * est_ww_p2wpkh) in *. set (p2 := n_p2tr c * est_ww_p2tr) in *.
+  set (p3 := n_nested c * est_ww_nested) in *.
+  clearbody vo' vo vi so' so lin.
+  rewrite HWt in *.
+  destruct (0 <? n_p2wpkh c + n_nested c + n_p2tr c) eqn:Ew.
+  - clearbody p1 p2 p3. rewrite Z.quot_div_nonneg by lia. lia.
+  - assert (n_p2wpkh c = 0 /\ n_p2tr c = 0 /\ n_nested c = 0) as (Z1&Z2&Z3) by lia.
+    subst p1 p2 p3. rewrite Z1, Z2, Z3 in *. rewrite !Z.mul_0_l in *.
+    rewrite Z.quot_div_nonneg by lia. lia.
 Qed.
 
 (** ** The input source *)
 Lemma sum_coins_app a b : sum_coins (a ++ b) = sum_coins a + sum_coins b.
 Proof. unfold sum_coins. induction a as [|c a IH]; cbn [app fold_right]; lia. Qed.
 
-Lemma pull_spec target rest : forall total taken total' taken' rest',
-  pull target total taken rest = (total', taken', rest') ->
+Lemma pull_spec fixed target rest : forall total taken total' taken' rest',
+  pull fixed target total taken rest = (total', taken', rest') ->
   exists more, rest = more ++ rest' /\ taken' = taken ++ more /\
     total' = total + sum_coins more /\
     (target <= total' \/ rest' = []) /\
@@ -352,23 +461,35 @@ Proof.
   induction rest as [|c rest IH]; intros total taken total' taken' rest' H; cbn [pull] in H.
   - inv H. exists []. change (sum_coins []) with 0.
     split; [reflexivity|]. split; [symmetry; apply app_nil_r|]. split; [lia|]. split; [right; reflexivity|]. intros _ Hn; exact Hn.
-  - destruct (total <? target) eqn:E.
+  - destruct (fixed || (total <? target)) eqn:E.
     + apply IH in H. destruct H as (more & -> & -> & -> & Hstop & _).
       exists (c :: more). rewrite <- app_assoc. cbn [app]. 
       change (sum_coins (c :: more)) with (snd c + sum_coins more).
       split; [reflexivity|]. split; [reflexivity|]. split; [lia|]. split; [exact Hstop|]. intros _ _; discriminate.
-    + inv H. exists []. change (sum_coins []) with 0.
+    + apply orb_false_iff in E. destruct E as (_ & E). inv H. exists []. change (sum_coins []) with 0.
       split; [reflexivity|]. split; [symmetry; apply app_nil_r|]. split; [lia|]. split; [left; lia|]. intros Hc; lia.
+Qed.
+
+(** the explicit selection is handed out whole, whatever the target *)
+Lemma pull_fixed_all target rest : forall total taken,
+  pull true target total taken rest = (total + sum_coins rest, taken ++ rest, []).
+Proof.
+  induction rest as [|c rest IH]; intros total taken; cbn [pull orb].
+  - change (sum_coins []) with 0. rewrite app_nil_r. f_equal. f_equal. lia.
+  - rewrite IH. change (sum_coins (c :: rest)) with (snd c + sum_coins rest). rewrite <- app_assoc. cbn [app].
+    f_equal. f_equal. lia.
 Qed.
 
 Section AuthorProofs.
   Variable cf : cfg.
+  Variable fixed : bool.
   Variable outs : list txout.
   Variable rate : Z.
   Variable chg : Z.
+  Variable chgr : Z.
   Variable chgwit : bool.
 
-  Notation loop := (author_loop cf outs rate chg chgwit).
+  Notation loop := (author_loop cf fixed outs rate chg chgr chgwit).
   Notation esz := (est_size cf outs chg).
 
   (** What a successful run returns. *)
@@ -380,17 +501,17 @@ Section AuthorProofs.
       a_req_fee a = fee_for rate (a_est a) /\
       let c := a_total_in a - sum_values outs - a_req_fee a in
       0 <= c /\
-      ((a_change a = Some c /\ a_outs a = outs ++ [mkOut c chg] /\ a_change_index a = Some (length outs)
-        /\ c <> 0 /\ is_dust c chg chgwit default_relay_fee_per_kb = false)
+      ((a_change a = Some c /\ a_outs a = outs ++ [mkOut c chgr] /\ a_change_index a = Some (length outs)
+        /\ c <> 0 /\ is_dust c chgr chgwit default_relay_fee_per_kb = false)
        \/ (a_change a = None /\ a_outs a = outs /\ a_change_index a = None
-           /\ (c = 0 \/ is_dust c chg chgwit default_relay_fee_per_kb = true))).
+           /\ (c = 0 \/ is_dust c chgr chgwit default_relay_fee_per_kb = true))).
 
   Lemma loop_success fuel : forall rnd tf total taken rest a,
     loop fuel rnd tf total taken rest = Success a -> total = sum_coins taken ->
     success_spec taken rest a.
   Proof.
     induction fuel as [|fuel IH]; intros rnd tf total taken rest a H Ht; cbn [author_loop] in H; [discriminate|].
-    destruct (pull (sum_values outs + tf) total taken rest) as [[total' taken'] rest'] eqn:EP.
+    destruct (pull fixed (sum_values outs + tf) total taken rest) as [[total' taken'] rest'] eqn:EP.
     apply pull_spec in EP. destruct EP as (more & -> & -> & -> & Hstop & _).
     destruct (_ <? _) eqn:E1 in H; [discriminate|].
     destruct (_ <? _) eqn:E2 in H.
@@ -418,7 +539,7 @@ Section AuthorProofs.
       (tf' = tf \/ exists p q, taken ++ rest = p ++ q /\ tf' = fee_for rate (esz (counts_of (map fst p)))).
   Proof.
     induction fuel as [|fuel IH]; intros rnd tf total taken rest r H Ht; cbn [author_loop] in H; [discriminate|].
-    destruct (pull (sum_values outs + tf) total taken rest) as [[total' taken'] rest'] eqn:EP.
+    destruct (pull fixed (sum_values outs + tf) total taken rest) as [[total' taken'] rest'] eqn:EP.
     apply pull_spec in EP. destruct EP as (more & -> & -> & -> & Hstop & _).
     destruct (_ <? _) eqn:E1 in H.
     - exists tf. destruct Hstop as [Hs| ->]; [lia|]. rewrite app_nil_r, sum_coins_app. split; [lia|left; reflexivity].
@@ -436,11 +557,11 @@ Section AuthorProofs.
     loop fuel rnd tf total taken rest <> OutOfFuel.
   Proof.
     induction fuel as [|fuel IH]; intros rnd tf total taken rest Hf Hlt; [lia|]. cbn [author_loop].
-    destruct (pull (sum_values outs + tf) total taken rest) as [[total' taken'] rest'] eqn:EP.
+    destruct (pull fixed (sum_values outs + tf) total taken rest) as [[total' taken'] rest'] eqn:EP.
     apply pull_spec in EP. destruct EP as (more & -> & -> & -> & Hstop & Hmore).
     match goal with |- context [if ?b then InsufficientFunds _ else _] => destruct b eqn:E1 end;
       [intro HH; discriminate HH|].
-    match goal with |- context [if ?b then author_loop _ _ _ _ _ _ _ _ _ _ _ else _] => destruct b eqn:E2 end;
+    match goal with |- context [if ?b then author_loop _ _ _ _ _ _ _ _ _ _ _ _ _ else _] => destruct b eqn:E2 end;
       [|intro HH; discriminate HH].
     apply IH; [|lia].
     destruct more as [|c more]; [|rewrite app_length in Hf; cbn [length] in Hf; lia].
@@ -456,9 +577,9 @@ Section AuthorProofs.
     end.
   Proof.
     induction fuel as [|fuel IH]; intros rnd tf total taken rest; cbn [author_loop]; [exact I|].
-    destruct (pull (sum_values outs + tf) total taken rest) as [[total' taken'] rest'].
+    destruct (pull fixed (sum_values outs + tf) total taken rest) as [[total' taken'] rest'].
     match goal with |- context [if ?b then InsufficientFunds _ else _] => destruct b end; [lia|].
-    match goal with |- context [if ?b then author_loop _ _ _ _ _ _ _ _ _ _ _ else _] => destruct b end.
+    match goal with |- context [if ?b then author_loop _ _ _ _ _ _ _ _ _ _ _ _ _ else _] => destruct b end.
     - specialize (IH (S rnd) (fee_for rate (esz (counts_of (map fst taken')))) total' taken' rest').
       destruct (loop fuel (S rnd) _ total' taken' rest'); try lia; exact I.
     - cbn [a_rounds]. lia.
@@ -467,16 +588,16 @@ End AuthorProofs.
 
 (** ** No prefix of the arrangement would have been enough *)
 Lemma pull_minimal target rest : forall total taken total' taken' rest',
-  pull target total taken rest = (total', taken', rest') ->
+  pull false target total taken rest = (total', taken', rest') ->
   forall m1 m2, taken' = taken ++ m1 ++ m2 -> m2 <> [] -> total + sum_coins m1 < target.
 Proof.
   induction rest as [|c rest IH]; intros total taken total' taken' rest' H m1 m2 Heq Hne; cbn [pull] in H.
   - injection H as _ E2 _. rewrite <- E2 in Heq. rewrite <- (app_nil_r taken) in Heq at 1. apply app_inv_head in Heq.
     symmetry in Heq. apply app_eq_nil in Heq. destruct Heq; contradiction.
-  - destruct (total <? target) eqn:E.
+  - cbn [orb] in H. destruct (total <? target) eqn:E.
     + destruct m1 as [|x m1].
       * change (sum_coins []) with 0. lia.
-      * pose proof (pull_spec _ _ _ _ _ _ _ H) as (more & _ & Ht & _).
+      * pose proof (pull_spec _ _ _ _ _ _ _ _ H) as (more & _ & Ht & _).
         rewrite Heq in Ht. rewrite <- !app_assoc in Ht. apply app_inv_head in Ht.
         cbn [app] in Ht. inv Ht.
         change (sum_coins (c :: m1)) with (snd c + sum_coins m1).
@@ -491,8 +612,9 @@ Section NoPrefix.
   Variable outs : list txout.
   Variable rate : Z.
   Variable chg : Z.
+  Variable chgr : Z.
   Variable chgwit : bool.
-  Notation loop := (author_loop cf outs rate chg chgwit).
+  Notation loop := (author_loop cf false outs rate chg chgr chgwit).
   Notation esz := (est_size cf outs chg).
   Notation need Q := (sum_values outs + fee_for rate (esz (counts_of (map fst Q)))).
 
@@ -506,7 +628,7 @@ Section NoPrefix.
   Proof.
     induction fuel as [|fuel IH]; intros rnd tf total taken rest r H Ht Htf e q He Hne;
       cbn [author_loop] in H; [discriminate|].
-    destruct (pull (sum_values outs + tf) total taken rest) as [[total' taken'] rest'] eqn:EP.
+    destruct (pull false (sum_values outs + tf) total taken rest) as [[total' taken'] rest'] eqn:EP.
     pose proof (pull_minimal _ _ _ _ _ _ _ EP) as Hmin.
     apply pull_spec in EP. destruct EP as (more & Hrest & -> & -> & Hstop & _).
     rewrite Hrest in He. apply app_eq_app in He. destruct He as (l & [(Hm & Hq)|(Hm & Hq)]).
@@ -515,7 +637,7 @@ Section NoPrefix.
       + rewrite app_nil_r in Hm. subst e.
         match type of H with context [if ?b then InsufficientFunds _ else _] => destruct b eqn:E1 end.
         * specialize (Htf more rest' Hrest Hne). rewrite sum_coins_app. lia.
-        * match type of H with context [if ?b then author_loop _ _ _ _ _ _ _ _ _ _ _ else _] => destruct b eqn:E2 end;
+        * match type of H with context [if ?b then author_loop _ _ _ _ _ _ _ _ _ _ _ _ _ else _] => destruct b eqn:E2 end;
             [|discriminate].
           rewrite sum_coins_app. lia.
       + specialize (Hmin e (x :: l)). rewrite Hm in Hmin. specialize (Hmin eq_refl ltac:(discriminate)).
@@ -526,12 +648,12 @@ Section NoPrefix.
       + rewrite app_nil_r in Hm. subst e.
         match type of H with context [if ?b then InsufficientFunds _ else _] => destruct b eqn:E1 end.
         * specialize (Htf more rest' Hrest Hne). rewrite sum_coins_app. lia.
-        * match type of H with context [if ?b then author_loop _ _ _ _ _ _ _ _ _ _ _ else _] => destruct b eqn:E2 end;
+        * match type of H with context [if ?b then author_loop _ _ _ _ _ _ _ _ _ _ _ _ _ else _] => destruct b eqn:E2 end;
             [|discriminate].
           rewrite sum_coins_app. lia.
       + match type of H with context [if ?b then InsufficientFunds _ else _] => destruct b eqn:E1 end.
         * destruct Hstop as [Hs|Hs]; [lia|]. rewrite Hs in Hq. discriminate.
-        * match type of H with context [if ?b then author_loop _ _ _ _ _ _ _ _ _ _ _ else _] => destruct b eqn:E2 end;
+        * match type of H with context [if ?b then author_loop _ _ _ _ _ _ _ _ _ _ _ _ _ else _] => destruct b eqn:E2 end;
             [|discriminate].
           subst e. rewrite app_assoc.
           eapply IH with (q := q); [exact H|rewrite sum_coins_app; lia| |exact Hq|discriminate].
@@ -539,12 +661,13 @@ Section NoPrefix.
   Qed.
 End NoPrefix.
 
-Lemma pull_no_need target total taken rest : target <= total ->
-  pull target total taken rest = (total, taken, rest).
-Proof. intros H. destruct rest as [|c rest]; cbn [pull]; [reflexivity|]. destruct (total <? target) eqn:E; [lia|reflexivity]. Qed.
 
-Lemma map_fst_combine {A B} (l : list A) (l' : list B) : length l = length l' -> map fst (combine l l') = l.
-Proof. revert l'. induction l as [|a l IH]; intros [|b l'] H; cbn in *; try discriminate; [reflexivity|]. f_equal. apply IH. lia. Qed.
+Lemma mk_sinputs_kinds (ks : list kind) (sg : list (Z * Z)) : length ks = length sg ->
+  map si_kind (mk_sinputs ks sg) = ks.
+Proof.
+  unfold mk_sinputs. revert sg. induction ks as [|k ks IH]; intros [|g sg] H; cbn in *; try discriminate; [reflexivity|].
+  f_equal. apply IH. lia.
+Qed.
 
 Lemma init_minimal_spec cf : init_minimal cf = true ->
   counts_nonneg (cfg_init cf) /\ forall k, est_inputs (cfg_init cf) <= est_inputs (unit_counts k).
@@ -553,7 +676,7 @@ Proof.
   intros ((((H1&H2)&H3)&H4)&(K1&K2&K3&K4&_)). split; [lia|]. intros k; destruct k; lia.
 Qed.
 
-Lemma real_vsize_lb ins outs : admissible ins -> outs_wf outs -> 10 <= real_vsize ins outs.
+Lemma real_vsize_lb unc ins outs : admissible unc ins -> outs_wf outs -> 10 <= real_vsize ins outs.
 Proof.
   intros Ha Ho. unfold admissible in Ha. apply sum_in_nonneg in Ha. destruct Ha as (Hb&Hw).
   pose proof (sum_out_sizes_nonneg outs Ho).
@@ -566,20 +689,144 @@ Lemma est_size_vcc cf outs chg c : cfg_vcc cf = true ->
   est_size cf outs chg c = est_vsize_gen true c outs chg.
 Proof. unfold est_size. intros ->. reflexivity. Qed.
 
+(** ** RandomizeOutputPosition is a transposition *)
+
+Lemma set_nth_split {A} (l1 : list A) a l2 x : set_nth (length l1) x (l1 ++ a :: l2) = l1 ++ x :: l2.
+Proof.
+  unfold set_nth. rewrite firstn_app, firstn_all, Nat.sub_diag. cbn [firstn]. rewrite app_nil_r.
+  rewrite skipn_app, skipn_all, Nat.sub_diag. cbn [skipn app]. reflexivity.
+Qed.
+
+Lemma nth_error_split' {A} (l : list A) n a : nth_error l n = Some a ->
+  exists l1 l2, l = l1 ++ a :: l2 /\ length l1 = n.
+Proof. apply nth_error_split. Qed.
+
+Lemma perm_xy_middle {A} (x y : A) m l :
+  Permutation (y :: m ++ x :: l) (x :: m ++ y :: l).
+Proof.
+  transitivity (y :: x :: m ++ l).
+  - apply perm_skip. symmetry. apply Permutation_middle.
+  - transitivity (x :: y :: m ++ l); [apply perm_swap|]. apply perm_skip. apply Permutation_middle.
+Qed.
+
+Lemma swap_outputs_perm r i l : Permutation (swap_outputs r i l) l.
+Proof.
+  unfold swap_outputs.
+  destruct (nth_error l r) as [x|] eqn:Er; [|reflexivity].
+  destruct (nth_error l i) as [y|] eqn:Ei; [|reflexivity].
+  destruct (Nat.eq_dec r i) as [->|Hne].
+  - rewrite Er in Ei. inv Ei.
+    apply nth_error_split in Er. destruct Er as (l1 & l2 & -> & <-).
+    rewrite set_nth_split, set_nth_split. reflexivity.
+  - destruct (Nat.lt_ge_cases r i) as [Hlt|Hge].
+    + (* r < i *)
+      apply nth_error_split in Ei. destruct Ei as (l1 & l2 & -> & <-).
+      rewrite nth_error_app1 in Er by lia.
+      apply nth_error_split in Er. destruct Er as (m1 & m2 & -> & <-).
+      rewrite <- app_assoc. cbn [app]. rewrite set_nth_split.
+      replace (m1 ++ y :: m2 ++ y :: l2) with ((m1 ++ y :: m2) ++ y :: l2) by (rewrite <- app_assoc; reflexivity).
+      replace (length (m1 ++ x :: m2)) with (length (m1 ++ y :: m2)) by (rewrite !app_length; reflexivity).
+      rewrite set_nth_split. rewrite <- app_assoc. cbn [app].
+      apply Permutation_app_head.
+      apply perm_xy_middle.
+    + (* i < r *)
+      assert (Hlt : (i < r)%nat) by lia.
+      apply nth_error_split in Er. destruct Er as (l1 & l2 & -> & <-).
+      rewrite nth_error_app1 in Ei by lia.
+      apply nth_error_split in Ei. destruct Ei as (m1 & m2 & -> & <-).
+      rewrite set_nth_split. rewrite <- !app_assoc. cbn [app]. rewrite set_nth_split.
+      apply Permutation_app_head.
+      apply perm_xy_middle.
+Qed.
+
+Lemma set_nth_nth_same {A} n (x : A) l : (n < length l)%nat -> nth_error (set_nth n x l) n = Some x.
+Proof.
+  intros H. destruct (nth_error l n) as [a|] eqn:E; [|apply nth_error_None in E; lia].
+  apply nth_error_split in E. destruct E as (l1 & l2 & -> & <-).
+  rewrite set_nth_split. rewrite nth_error_app2 by lia. rewrite Nat.sub_diag. reflexivity.
+Qed.
+
+Lemma set_nth_length {A} n (x : A) l : length (set_nth n x l) = length l.
+Proof.
+  destruct (nth_error l n) as [a|] eqn:E.
+  - apply nth_error_split in E. destruct E as (l1 & l2 & -> & <-). rewrite set_nth_split, !app_length. reflexivity.
+  - apply nth_error_None in E. unfold set_nth. rewrite firstn_all2, skipn_all2 by lia. rewrite app_nil_r. reflexivity.
+Qed.
+
+Lemma set_nth_nth_other {A} n k (x : A) l : n <> k -> nth_error (set_nth n x l) k = nth_error l k.
+Proof.
+  intros Hne. destruct (nth_error l n) as [a|] eqn:E.
+  - apply nth_error_split in E. destruct E as (l1 & l2 & -> & <-). rewrite set_nth_split.
+    destruct (Nat.lt_ge_cases k (length l1)).
+    + rewrite !nth_error_app1 by lia. reflexivity.
+    + rewrite !nth_error_app2 by lia. destruct (k - length l1)%nat eqn:Ek; [lia|reflexivity].
+  - apply nth_error_None in E. unfold set_nth. rewrite firstn_all2, skipn_all2 by lia. rewrite app_nil_r. reflexivity.
+Qed.
+
+(** after the swap the entry that was at [i] is at [r] *)
+Lemma swap_outputs_nth r i l y : (r < length l)%nat -> nth_error l i = Some y ->
+  nth_error (swap_outputs r i l) r = Some y.
+Proof.
+  intros Hr Ei. unfold swap_outputs.
+  destruct (nth_error l r) as [x|] eqn:Er; [|apply nth_error_None in Er; lia].
+  rewrite Ei. destruct (Nat.eq_dec r i) as [->|Hne].
+  - rewrite Er in Ei. inv Ei. apply set_nth_nth_same. rewrite set_nth_length. exact Hr.
+  - rewrite set_nth_nth_other by lia. apply set_nth_nth_same. exact Hr.
+Qed.
+
+Lemma sum_values_perm a b : Permutation a b -> sum_values a = sum_values b.
+Proof. unfold sum_values. induction 1; cbn [fold_right]; lia. Qed.
+
+Lemma sum_out_sizes_perm a b : Permutation a b -> sum_out_sizes a = sum_out_sizes b.
+Proof. unfold sum_out_sizes. induction 1; cbn [fold_right]; lia. Qed.
+
+(** the signed size does not depend on the order of the outputs *)
+Lemma real_vsize_perm ins a b : Permutation a b -> real_vsize ins a = real_vsize ins b.
+Proof.
+  intros H. unfold real_vsize, real_weight, real_total, real_base.
+  rewrite (sum_out_sizes_perm a b H), (Permutation_length H). reflexivity.
+Qed.
+
+(** What RandomizeChangePosition does to an authored transaction with a
+    change output: a permutation of the outputs that keeps track of the
+    change output; nothing else changes. *)
+Lemma randomize_spec rnd a i ch :
+  a_change_index a = Some i -> nth_error (a_outs a) i = Some ch ->
+  let a' := randomize rnd a in
+  Permutation (a_outs a') (a_outs a) /\
+  (exists r, a_change_index a' = Some r /\ nth_error (a_outs a') r = Some ch) /\
+  a_inputs a' = a_inputs a /\ a_total_in a' = a_total_in a /\ a_change a' = a_change a /\
+  a_est a' = a_est a /\ a_req_fee a' = a_req_fee a /\ a_rounds a' = a_rounds a.
+Proof.
+  intros Hi Hn. cbn zeta. unfold randomize. rewrite Hi.
+  cbn [a_outs a_change_index a_inputs a_total_in a_change a_est a_req_fee a_rounds].
+  assert (Hlen : (0 < length (a_outs a))%nat).
+  { destruct (a_outs a); [destruct i; discriminate Hn|cbn; lia]. }
+  split; [apply swap_outputs_perm|]. split; [|repeat split; reflexivity].
+  eexists. split; [reflexivity|]. apply swap_outputs_nth; [|exact Hn].
+  apply Nat.mod_upper_bound. lia.
+Qed.
+
+Lemma randomize_none rnd a : a_change_index a = None -> randomize rnd a = a.
+Proof. unfold randomize. intros ->. reflexivity. Qed.
+
 Section Top.
   Variable cf : cfg.
+  Variable fixed : bool.
   Variable outs : list txout.
   Variable rate : Z.
   Variable chg : Z.
+  Variable chgr : Z.
   Variable chgwit : bool.
   Variable coins : list coin.
 
-  Hypothesis HC : consts_exact = true.
+  Hypothesis HS : consts_sane = true.
   Hypothesis Houts : outs_wf outs.
   Hypothesis Hvals : 0 <= sum_values outs.
   Hypothesis Hchg : 0 < chg.
+  Hypothesis Hchgr : 0 <= chgr.
 
-  Notation run := (author cf outs rate chg chgwit coins).
+  Notation run := (author cf fixed outs rate chg chgr chgwit coins).
   Notation esz := (est_size cf outs chg).
 
   Lemma esz_lb c : counts_nonneg c -> 10 <= esz c.
@@ -591,19 +838,20 @@ Section Top.
   (** *** Termination within the fuel *)
   Theorem author_terminates : 0 <= rate -> counts_nonneg (cfg_init cf) -> run <> OutOfFuel.
   Proof.
-    intros Hr Hi. unfold author.
+    intros Hr Hi. unfold author. pose proof (consts_sane_divisor HS) as HD.
     set (tf0 := fee_for rate (esz (cfg_init cf))).
     destruct (Z_lt_ge_dec 0 (sum_values outs + tf0)) as [Hpos|Hz].
     - apply loop_fuel; [lia|exact Hpos].
     - pose proof (fee_for_nonneg rate (esz (cfg_init cf))) as Hn. fold tf0 in Hn.
       assert (Hr0 : rate = 0).
       { destruct (Z.eq_dec rate 0) as [|Hne]; [assumption|exfalso].
-        pose proof (fee_for_pos rate (esz (cfg_init cf)) HC ltac:(lia)) as Hp.
+        pose proof (fee_for_pos rate (esz (cfg_init cf)) HD ltac:(lia)) as Hp.
         pose proof (esz_lb _ Hi). fold tf0 in Hp. lia. }
-      cbn [author_loop]. rewrite pull_no_need by lia.
-      assert (E1 : (0 <? sum_values outs + tf0) = false) by lia. rewrite E1.
+      cbn [author_loop].
+      destruct (pull fixed (sum_values outs + tf0) 0 [] coins) as [[total' taken'] rest'].
+      destruct (total' <? sum_values outs + tf0) eqn:E1; [discriminate|].
       subst rate. rewrite fee_for_zero_rate.
-      assert (E2 : (0 - sum_values outs <? 0) = false) by lia. rewrite E2. discriminate.
+      assert (E2 : (total' - sum_values outs <? 0) = false) by lia. rewrite E2. discriminate.
   Qed.
 
   Theorem author_rounds :
@@ -613,13 +861,13 @@ Section Top.
     | OutOfFuel => True
     end.
   Proof.
-    clear HC Houts Hvals Hchg. unfold author.
-    pose proof (loop_rounds cf outs rate chg chgwit (S (length coins)) 0 (fee_for rate (esz (cfg_init cf))) 0 [] coins) as H.
-    destruct (author_loop cf outs rate chg chgwit (S (length coins)) 0 _ 0 [] coins); try lia; exact I.
+    clear HS Houts Hvals Hchg Hchgr. unfold author.
+    pose proof (loop_rounds cf fixed outs rate chg chgr chgwit (S (length coins)) 0 (fee_for rate (esz (cfg_init cf))) 0 [] coins) as H.
+    destruct (author_loop cf fixed outs rate chg chgr chgwit (S (length coins)) 0 _ 0 [] coins); try lia; exact I.
   Qed.
 
   (** *** Success *)
-  Theorem author_success a : run = Success a -> success_spec cf outs rate chg chgwit [] coins a.
+  Theorem author_success a : run = Success a -> success_spec cf outs rate chg chgr chgwit [] coins a.
   Proof. unfold author. intros H. eapply loop_success; [exact H|reflexivity]. Qed.
 
   Section Success.
@@ -630,7 +878,7 @@ Section Top.
     Theorem success_outputs :
       firstn (length outs) (a_outs a) = outs /\
       match a_change a with
-      | Some c => a_outs a = outs ++ [mkOut c chg] /\ a_change_index a = Some (length outs)
+      | Some c => a_outs a = outs ++ [mkOut c chgr] /\ a_change_index a = Some (length outs)
       | None => a_outs a = outs /\ a_change_index a = None
       end.
     Proof.
@@ -640,7 +888,9 @@ Section Top.
       - split; [apply firstn_all|split; reflexivity].
     Qed.
 
-    (** the inputs are a prefix of the offered arrangement and their values are the total input *)
+    (** the inputs are a prefix of the offered arrangement and the total the
+        source reported is the sum of THEIR values (the accumulator invariant
+        of makeInputSource / constantInputSource) *)
     Theorem success_inputs :
       (exists rest', coins = a_inputs a ++ rest') /\ a_total_in a = sum_coins (a_inputs a).
     Proof.
@@ -658,11 +908,16 @@ Section Top.
       end.
     Proof.
       destruct (author_success a Hrun) as (more & rest' & _ & _ & Htot & _ & _ & Hc0 & Hcase).
-      clear HC Houts Hvals Hchg. unfold paid_fee. rewrite <- Htot.
+      clear HS Houts Hvals Hchg Hchgr. unfold paid_fee. rewrite <- Htot.
       destruct Hcase as [(-> & -> & _)|(-> & -> & _)].
       - rewrite sum_values_app. cbn [sum_values fold_right out_value]. lia.
       - lia.
     Qed.
+
+    (** the fee of the transaction (values of the coins spent minus values of
+        the outputs) is the fee the loop accounted for *)
+    Theorem success_tx_fee : tx_fee a = paid_fee a.
+    Proof. pose proof success_inputs as (_ & Ht). unfold tx_fee, paid_fee. rewrite Ht. reflexivity. Qed.
 
     (** the fee is at least the required fee for the estimated size of exactly this transaction *)
     Theorem success_fee_lower :
@@ -671,59 +926,79 @@ Section Top.
     Proof.
       destruct (author_success a Hrun) as (more & rest' & _ & _ & _ & He & Hf & _).
       pose proof success_conservation as (_ & _ & H3).
-      clear HC Houts Hvals Hchg. split; [exact He|]. split; [exact Hf|]. destruct (a_change a); lia.
+      clear HS Houts Hvals Hchg Hchgr. split; [exact He|]. split; [exact Hf|]. destruct (a_change a); lia.
     Qed.
 
     (** ... and stays below it plus one dust threshold of the change script *)
-    Theorem success_fee_upper :
-      paid_fee a < fee_for rate (a_est a) + dust_threshold chg chgwit /\
+    Theorem success_fee_upper : relay_floor_exact = true ->
+      paid_fee a < fee_for rate (a_est a) + dust_threshold chgr chgwit /\
       (a_change a <> None -> paid_fee a = fee_for rate (a_est a)).
     Proof.
+      intros HR. unfold relay_floor_exact in HR. apply Z.eqb_eq in HR.
       destruct (author_success a Hrun) as (more & rest' & _ & _ & Htot & _ & Hf & Hc0 & Hcase).
-      pose proof (dust_threshold_pos chg chgwit ltac:(lia)) as HT.
+      pose proof (dust_threshold_pos chgr chgwit ltac:(lia)) as HT.
       unfold paid_fee. rewrite <- Hf.
       destruct Hcase as [(Hch & -> & _)|(Hch & -> & _ & Hd)].
       - rewrite sum_values_app. cbn [sum_values fold_right out_value]. split; [lia|intros _; lia].
       - split; [|rewrite Hch; intros F; contradiction].
-        destruct Hd as [Hz|Hd]; [lia|]. apply is_dust_spec in Hd; auto; lia.
+        destruct Hd as [Hz|Hd]; [lia|]. rewrite HR in Hd. apply is_dust_true_lt in Hd; auto; lia.
     Qed.
 
     (** a change output is never zero and never dust *)
     Theorem success_change c : a_change a = Some c ->
-      0 < c /\ is_dust c chg chgwit default_relay_fee_per_kb = false /\ dust_threshold chg chgwit <= c.
+      0 < c /\ is_dust c chgr chgwit default_relay_fee_per_kb = false /\ dust_threshold chgr chgwit <= c.
     Proof.
       intros Hc. destruct (author_success a Hrun) as (more & rest' & _ & _ & _ & _ & _ & Hc0 & Hcase).
       destruct Hcase as [(Hch & _ & _ & Hnz & Hnd)|(Hch & _)]; [|congruence].
       rewrite Hch in Hc. inv Hc. split; [lia|]. split; [exact Hnd|].
-      destruct (Z_lt_ge_dec (a_total_in a - sum_values outs - a_req_fee a) (dust_threshold chg chgwit)) as [Hlt|]; [|lia].
-      apply is_dust_spec in Hlt; auto; try lia; try congruence.
+      apply is_dust_false_ge in Hnd; auto. apply consts_sane_relay, HS.
+    Qed.
+
+    (** the outputs of the result are well formed when the requested ones are *)
+    Lemma success_outs_wf : outs_wf (a_outs a).
+    Proof.
+      destruct (author_success a Hrun) as (more & rest' & _ & _ & _ & _ & _ & _ & Hcase).
+      destruct Hcase as [(_ & -> & _)|(_ & -> & _)]; [|exact Houts].
+      apply Forall_app; split; [exact Houts|]. repeat constructor. cbn. lia.
     Qed.
 
     (** the fee covers the requested rate on the REAL signed size, for every
-        admissible assignment of signature lengths, whatever the number of
-        outputs *)
-    Theorem success_fee_covers_real sigs :
+        admissible assignment of signature and public-key lengths, whatever
+        the number of outputs *)
+    Theorem success_fee_covers_real unc sigs :
+      sizes_cover unc = true -> chgr <= chg ->
       cfg_vcc cf = true -> default_relay_fee_per_kb <= rate ->
       length sigs = length (a_inputs a) ->
-      admissible (combine (map fst (a_inputs a)) sigs) ->
-      fee_for rate (real_vsize (combine (map fst (a_inputs a)) sigs) (a_outs a)) <= paid_fee a.
+      admissible unc (mk_sinputs (map fst (a_inputs a)) sigs) ->
+      fee_for rate (real_vsize (mk_sinputs (map fst (a_inputs a)) sigs) (a_outs a)) <= paid_fee a.
     Proof.
-      intros Hv Hrate Hlen Hadm.
-      pose proof success_fee_lower as (He & Hf & Hle).
-      pose proof (consts_exact_spec HC) as (_&_&_&_&_&_&_&_&HR).
-      set (ins := combine (map fst (a_inputs a)) sigs) in *.
-      assert (Hk : map fst ins = map fst (a_inputs a)) by (apply map_fst_combine; rewrite map_length; lia).
+      intros HC Hle Hv Hrate Hlen Hadm.
+      pose proof success_fee_lower as (He & Hf & Hlo).
+      pose proof (consts_sane_relay HS) as HR. pose proof (consts_sane_divisor HS) as HD.
+      set (ins := mk_sinputs (map fst (a_inputs a)) sigs) in *.
+      assert (Hk : map si_kind ins = map fst (a_inputs a)) by (apply mk_sinputs_kinds; rewrite map_length; lia).
       assert (Hreal : real_vsize ins (a_outs a) <= a_est a).
       { rewrite He, <- Hk. unfold est_size. rewrite Hv.
         destruct (author_success a Hrun) as (more & rest' & _ & _ & _ & _ & _ & _ & Hcase).
-        eapply est_ge_real with (v := a_total_in a - sum_values outs - a_req_fee a); auto.
+        eapply est_ge_real with (unc := unc) (chgr := chgr) (v := a_total_in a - sum_values outs - a_req_fee a); auto; try lia.
         destruct Hcase as [(_ & -> & _)|(_ & -> & _)]; [right|left]; reflexivity. }
-      assert (Hwf' : outs_wf (a_outs a)).
-      { destruct (author_success a Hrun) as (more & rest' & _ & _ & _ & _ & _ & _ & Hcase).
-        destruct Hcase as [(_ & -> & _)|(_ & -> & _)]; [|exact Houts].
-        apply Forall_app; split; [exact Houts|]. repeat constructor. cbn. lia. }
-      pose proof (real_vsize_lb ins (a_outs a) Hadm Hwf').
-      etransitivity; [|exact Hle]. rewrite Hf. apply fee_for_mono; auto; nia.
+      pose proof (real_vsize_lb unc ins (a_outs a) Hadm success_outs_wf).
+      etransitivity; [|exact Hlo]. rewrite Hf. apply fee_for_mono; auto; nia.
+    Qed.
+
+    (** amounts: with non-negative requested amounts every output of the
+        result is non-negative and the outputs together do not exceed the
+        coins spent *)
+    Theorem success_amounts :
+      Forall (fun o => 0 <= out_value o) outs ->
+      Forall (fun o => 0 <= out_value o) (a_outs a) /\ sum_values (a_outs a) <= sum_coins (a_inputs a).
+    Proof.
+      intros Hnn. pose proof success_conservation as (H1 & _ & H3). pose proof success_fee_lower as (_ & Hf & Hlo).
+      pose proof (fee_for_nonneg rate (a_est a)).
+      destruct (author_success a Hrun) as (more & rest' & _ & _ & _ & _ & _ & Hc0 & Hcase).
+      split; [|lia].
+      destruct Hcase as [(_ & -> & _)|(_ & -> & _)]; [|exact Hnn].
+      apply Forall_app; split; [exact Hnn|]. repeat constructor. cbn. lia.
     Qed.
   End Success.
 
@@ -734,7 +1009,7 @@ Section Top.
     sum_coins coins < sum_values outs + fee_for rate (esz (counts_of (map fst coins))).
   Proof.
     intros Hmin Hrate Hrun. apply init_minimal_spec in Hmin. destruct Hmin as (Hinn & Hmin).
-    pose proof (consts_exact_spec HC) as (_&_&_&_&_&_&_&_&HR).
+    pose proof (consts_sane_relay HS) as HR. pose proof (consts_sane_divisor HS) as HD.
     unfold author in Hrun. apply loop_insufficient in Hrun; [|reflexivity].
     destruct Hrun as (tf' & Hlt & Htf). cbn [app] in *.
     assert (Hall : tf' <= fee_for rate (esz (counts_of (map fst coins))) \/ coins = []).
@@ -744,7 +1019,7 @@ Section Top.
         apply fee_for_mono; auto; [lia|nia|].
         unfold est_size. rewrite !est_vsize_decomp.
         pose proof (Hmin (fst c)).
-        pose proof (est_inputs_mono (unit_counts (fst c)) (counts_of (map fst (c :: l))) HC) as Hm.
+        pose proof (est_inputs_mono (unit_counts (fst c)) (counts_of (map fst (c :: l))) HS) as Hm.
         cbn [map] in *. 
         assert (counts_nonneg (unit_counts (fst c))) by (unfold unit_counts; apply add_kind_nonneg; unfold counts_nonneg; cbn; lia).
         specialize (Hm ltac:(assumption) (counts_of_cons_unit _ _)). lia.
@@ -754,38 +1029,8 @@ Section Top.
         apply esz_mono; [apply counts_of_nonneg|apply counts_of_app_le]. }
     destruct Hall as [Hle| ->]; [lia|].
     change (sum_coins []) with 0. cbn [map].
-    pose proof (fee_for_pos rate (esz (counts_of [])) HC ltac:(lia)) as Hp.
+    pose proof (fee_for_pos rate (esz (counts_of [])) HD ltac:(lia)) as Hp.
     pose proof (esz_lb _ (counts_of_nonneg [])). lia.
-  Qed.
-
-  (** Stronger: no prefix of the offered arrangement covers the outputs plus
-      the required fee of the transaction spending exactly that prefix. *)
-  Theorem author_insufficient_no_prefix r :
-    init_minimal cf = true -> default_relay_fee_per_kb <= rate ->
-    run = InsufficientFunds r ->
-    forall Q q, coins = Q ++ q ->
-      sum_coins Q < sum_values outs + fee_for rate (esz (counts_of (map fst Q))).
-  Proof.
-    intros Hmin Hrate Hrun Q q HQ. apply init_minimal_spec in Hmin. destruct Hmin as (Hinn & Hmin).
-    pose proof (consts_exact_spec HC) as (_&_&_&_&_&_&_&_&HR).
-    destruct Q as [|c Q].
-    { change (sum_coins []) with 0. cbn [map].
-      pose proof (fee_for_pos rate (esz (counts_of [])) HC ltac:(lia)) as Hp.
-      pose proof (esz_lb _ (counts_of_nonneg [])). lia. }
-    unfold author in Hrun.
-    eapply (loop_no_prefix_covers cf outs rate chg chgwit) with (taken := []) (e := c :: Q) (q := q) in Hrun;
-      [exact Hrun| |reflexivity| |exact HQ|discriminate].
-    - intros p e. rewrite map_app. pose proof (esz_lb _ (counts_of_nonneg (map fst p))).
-      apply fee_for_mono; auto; [lia|nia|]. apply esz_mono; [apply counts_of_nonneg|apply counts_of_app_le].
-    - intros e q' _ Hne. cbn [app]. destruct e as [|x e]; [contradiction|].
-      pose proof (esz_lb _ Hinn).
-      apply fee_for_mono; auto; [lia|nia|].
-      unfold est_size. rewrite !est_vsize_decomp.
-      pose proof (Hmin (fst x)).
-      pose proof (est_inputs_mono (unit_counts (fst x)) (counts_of (map fst (x :: e))) HC) as Hm.
-      cbn [map] in *.
-      assert (counts_nonneg (unit_counts (fst x))) by (unfold unit_counts; apply add_kind_nonneg; unfold counts_nonneg; cbn; lia).
-      specialize (Hm ltac:(assumption) (counts_of_cons_unit _ _)). lia.
   Qed.
 
   (** The statement that holds whatever the initial guess is. *)
@@ -796,7 +1041,7 @@ Section Top.
        + Z.max (fee_for rate (esz (cfg_init cf))) (fee_for rate (esz (counts_of (map fst coins)))).
   Proof.
     intros Hrate Hinn Hrun.
-    pose proof (consts_exact_spec HC) as (_&_&_&_&_&_&_&_&HR).
+    pose proof (consts_sane_relay HS) as HR. pose proof (consts_sane_divisor HS) as HD.
     unfold author in Hrun. apply loop_insufficient in Hrun; [|reflexivity].
     destruct Hrun as (tf' & Hlt & Htf). cbn [app] in *.
     destruct Htf as [->|(p & q & Hpq & ->)]; [lia|].
@@ -808,3 +1053,248 @@ Section Top.
   Qed.
 End Top.
 
+(** Automatic selection: no prefix of the offered arrangement covers the
+    outputs plus the required fee of the transaction spending exactly that
+    prefix. *)
+Section TopAuto.
+  Variable cf : cfg.
+  Variable outs : list txout.
+  Variable rate : Z.
+  Variable chg : Z.
+  Variable chgr : Z.
+  Variable chgwit : bool.
+  Variable coins : list coin.
+
+  Hypothesis HS : consts_sane = true.
+  Hypothesis Houts : outs_wf outs.
+  Hypothesis Hvals : 0 <= sum_values outs.
+  Hypothesis Hchg : 0 < chg.
+
+  Notation run := (author cf false outs rate chg chgr chgwit coins).
+  Notation esz := (est_size cf outs chg).
+
+  Theorem author_insufficient_no_prefix r :
+    init_minimal cf = true -> default_relay_fee_per_kb <= rate ->
+    run = InsufficientFunds r ->
+    forall Q q, coins = Q ++ q ->
+      sum_coins Q < sum_values outs + fee_for rate (esz (counts_of (map fst Q))).
+  Proof.
+    intros Hmin Hrate Hrun Q q HQ. apply init_minimal_spec in Hmin. destruct Hmin as (Hinn & Hmin).
+    pose proof (consts_sane_relay HS) as HR. pose proof (consts_sane_divisor HS) as HD.
+    pose proof (esz_lb cf outs chg HS Houts Hchg) as Elb.
+    pose proof (esz_mono cf outs chg HS) as Emono.
+    destruct Q as [|c Q].
+    { change (sum_coins []) with 0. cbn [map].
+      pose proof (fee_for_pos rate (esz (counts_of [])) HD ltac:(lia)) as Hp.
+      pose proof (Elb _ (counts_of_nonneg [])). lia. }
+    unfold author in Hrun.
+    eapply (loop_no_prefix_covers cf outs rate chg chgr chgwit) with (taken := []) (e := c :: Q) (q := q) in Hrun;
+      [exact Hrun| |reflexivity| |exact HQ|discriminate].
+    - intros p e. rewrite map_app. pose proof (Elb _ (counts_of_nonneg (map fst p))).
+      apply fee_for_mono; auto; [lia|nia|]. apply Emono; [apply counts_of_nonneg|apply counts_of_app_le].
+    - intros e q' _ Hne. cbn [app]. destruct e as [|x e]; [contradiction|].
+      pose proof (Elb _ Hinn).
+      apply fee_for_mono; auto; [lia|nia|].
+      unfold est_size. rewrite !est_vsize_decomp.
+      pose proof (Hmin (fst x)).
+      pose proof (est_inputs_mono (unit_counts (fst x)) (counts_of (map fst (x :: e))) HS) as Hm.
+      cbn [map] in *.
+      assert (counts_nonneg (unit_counts (fst x))) by (unfold unit_counts; apply add_kind_nonneg; unfold counts_nonneg; cbn; lia).
+      specialize (Hm ltac:(assumption) (counts_of_cons_unit _ _)). lia.
+  Qed.
+End TopAuto.
+
+(** Explicit selection: the whole selection is spent. *)
+Lemma loop_fixed_inputs cf outs rate chg chgr chgwit fuel : forall rnd tf total taken rest a,
+  author_loop cf true outs rate chg chgr chgwit fuel rnd tf total taken rest = Success a ->
+  a_inputs a = taken ++ rest.
+Proof.
+  induction fuel as [|fuel IH]; intros rnd tf total taken rest a H; cbn [author_loop] in H; [discriminate|].
+  rewrite pull_fixed_all in H.
+  destruct (_ <? _) eqn:E1 in H; [discriminate|].
+  destruct (_ <? _) eqn:E2 in H.
+  - apply IH in H. rewrite app_nil_r in H. exact H.
+  - inv H. reflexivity.
+Qed.
+
+Lemma author_fixed_inputs cf outs rate chg chgr chgwit coins a :
+  author cf true outs rate chg chgr chgwit coins = Success a -> a_inputs a = coins.
+Proof. unfold author. intros H. apply loop_fixed_inputs in H. exact H. Qed.
+
+(** ** The wallet-level function *)
+
+Lemma change_real_pos k : 22 <= change_real k <= 34.
+Proof. destruct k; cbn; lia. Qed.
+
+Lemma change_sizes_cover_spec : change_sizes_cover = true -> forall k, change_real k <= change_decl k.
+Proof.
+  unfold change_sizes_cover. cbn [forallb]. rewrite !andb_true_iff, !Z.leb_le.
+  intros (K1&K2&K3&K4&_) k. destruct k; assumption.
+Qed.
+
+Section Wallet.
+  Variable fixed randomizes : bool.
+  Variable outs : list txout.
+  Variable rate : Z.
+  Variable k : chkind.
+  Variable coins : list coin.
+  Variable rnd : nat.
+
+  Hypothesis HS : consts_sane = true.
+  Hypothesis HK : change_sizes_cover = true.
+  Hypothesis Houts : outs_wf outs.
+  Hypothesis Hvals : 0 <= sum_values outs.
+
+  Notation wrun := (wallet_author fixed randomizes outs rate k coins rnd).
+  Notation arun := (author generated_cfg fixed outs rate (change_decl k) (change_real k) (change_wit k) coins).
+
+  Let Hchgr : 0 <= change_real k.
+  Proof. pose proof (change_real_pos k). lia. Qed.
+  Let Hchg : 0 < change_decl k.
+  Proof. pose proof (change_real_pos k). pose proof (change_sizes_cover_spec HK k). lia. Qed.
+  Let Hle : change_real k <= change_decl k.
+  Proof. apply change_sizes_cover_spec, HK. Qed.
+
+  (** the wallet-level result is the txauthor result with its outputs
+      permuted; the change output is where ChangeIndex says *)
+  Lemma wallet_author_rel a : wrun = Success a ->
+    exists a0, arun = Success a0 /\
+      Permutation (a_outs a) (a_outs a0) /\ a_inputs a = a_inputs a0 /\ a_total_in a = a_total_in a0 /\
+      a_change a = a_change a0 /\ a_est a = a_est a0 /\ a_req_fee a = a_req_fee a0 /\ a_rounds a = a_rounds a0 /\
+      match a_change a0 with
+      | Some c => exists r, a_change_index a = Some r /\ nth_error (a_outs a) r = Some (mkOut c (change_real k))
+      | None => a_change_index a = None /\ a_outs a = outs
+      end.
+  Proof.
+    unfold wallet_author. destruct arun as [a0| |] eqn:E; try discriminate. intros H. inv H.
+    exists a0. split; [reflexivity|].
+    pose proof (success_outputs generated_cfg fixed outs rate (change_decl k) (change_real k) (change_wit k) coins a0 E) as (_ & Ho).
+    destruct (a_change a0) as [c|] eqn:Ec.
+    - destruct Ho as (Ho & Hi).
+      assert (Hn : nth_error (a_outs a0) (length outs) = Some (mkOut c (change_real k))).
+      { rewrite Ho, nth_error_app2, Nat.sub_diag by lia. reflexivity. }
+      destruct randomizes.
+      + pose proof (randomize_spec rnd a0 _ _ Hi Hn) as (P & R & I1 & I2 & I3 & I4 & I5 & I6). cbn zeta in *.
+        rewrite Ec in I3. do 7 (split; [assumption|]). exact R.
+      + do 3 (split; [reflexivity|]). split; [exact Ec|]. do 3 (split; [reflexivity|]).
+        exists (length outs). split; assumption.
+    - destruct Ho as (Ho & Hi).
+      assert (randomize rnd a0 = a0) as Hr by (apply randomize_none, Hi).
+      destruct randomizes; rewrite ?Hr; do 3 (split; [reflexivity|]); (split; [exact Ec|]);
+        do 3 (split; [reflexivity|]); split; assumption.
+  Qed.
+
+  Lemma wallet_author_insufficient r : wrun = InsufficientFunds r -> arun = InsufficientFunds r.
+  Proof. unfold wallet_author. destruct arun; intros H; try discriminate; exact H. Qed.
+
+  Lemma wallet_author_fuel : wrun = OutOfFuel -> arun = OutOfFuel.
+  Proof. unfold wallet_author. destruct arun; intros H; try discriminate; reflexivity. Qed.
+
+  Section WSuccess.
+    Variable a : authored.
+    Hypothesis Hrun : wrun = Success a.
+
+    (** every requested output exactly once (amount and script length), plus
+        at most the change output, which sits at ChangeIndex *)
+    Theorem wallet_outputs :
+      match a_change a with
+      | Some c => Permutation (a_outs a) (outs ++ [mkOut c (change_real k)]) /\
+                  exists r, a_change_index a = Some r /\ nth_error (a_outs a) r = Some (mkOut c (change_real k))
+      | None => a_outs a = outs /\ a_change_index a = None
+      end.
+    Proof.
+      destruct (wallet_author_rel a Hrun) as (a0 & E & P & _ & _ & Hc & _ & _ & _ & Hm).
+      pose proof (success_outputs generated_cfg fixed outs rate _ _ _ coins a0 E) as (_ & Ho).
+      rewrite Hc. destruct (a_change a0) as [c|].
+      - destruct Ho as (Ho & _). rewrite <- Ho. split; assumption.
+      - destruct Hm as (Hi & Ho'). split; assumption.
+    Qed.
+
+    (** the inputs are a prefix of the offered arrangement (all of an
+        explicit selection), and what the input source reported as their total
+        is the sum of their values *)
+    Theorem wallet_inputs :
+      (exists rest, coins = a_inputs a ++ rest) /\ a_total_in a = sum_coins (a_inputs a) /\
+      (fixed = true -> a_inputs a = coins).
+    Proof.
+      destruct (wallet_author_rel a Hrun) as (a0 & E & _ & Hi & Ht & _).
+      pose proof (success_inputs generated_cfg fixed outs rate _ _ _ coins a0 E) as (H1 & H2).
+      rewrite Hi, Ht. split; [exact H1|]. split; [exact H2|].
+      intros ->. eapply author_fixed_inputs, E.
+    Qed.
+
+    (** value conservation on the transaction itself: the values of the coins
+        spent = the values of the outputs + the fee; the outputs are the
+        requested ones plus the change; the fee is the required fee for the
+        worst-case size of exactly this transaction when there is change, and
+        at least that otherwise *)
+    Theorem wallet_conservation :
+      sum_coins (a_inputs a) = sum_values (a_outs a) + tx_fee a /\
+      sum_values (a_outs a) = sum_values outs + match a_change a with Some c => c | None => 0 end /\
+      a_req_fee a = fee_for rate (a_est a) /\
+      match a_change a with
+      | Some _ => tx_fee a = a_req_fee a
+      | None => a_req_fee a <= tx_fee a
+      end.
+    Proof.
+      destruct (wallet_author_rel a Hrun) as (a0 & E & P & Hi & Ht & Hc & He & Hf & _).
+      pose proof (success_conservation generated_cfg fixed outs rate _ _ _ coins a0 E) as (C1 & C2 & C3).
+      pose proof (success_tx_fee generated_cfg fixed outs rate _ _ _ coins a0 E) as C4.
+      pose proof (success_fee_lower generated_cfg fixed outs rate _ _ _ coins a0 E) as (_ & C5 & _).
+      assert (Hfee : tx_fee a = paid_fee a0).
+      { rewrite <- C4. unfold tx_fee. rewrite Hi, (sum_values_perm _ _ P). reflexivity. }
+      rewrite Hc, He, Hf, Hfee, (sum_values_perm _ _ P), Hi. repeat split; assumption.
+    Qed.
+
+    (** the fee covers the requested rate on the real signed size *)
+    Theorem wallet_fee_covers_real unc sigs :
+      sizes_cover unc = true -> varint_counts_change = true -> default_relay_fee_per_kb <= rate ->
+      length sigs = length (a_inputs a) ->
+      admissible unc (mk_sinputs (map fst (a_inputs a)) sigs) ->
+      fee_for rate (real_vsize (mk_sinputs (map fst (a_inputs a)) sigs) (a_outs a)) <= tx_fee a.
+    Proof.
+      intros HC Hv Hr Hl Ha.
+      destruct (wallet_author_rel a Hrun) as (a0 & E & P & Hi & _).
+      pose proof (success_tx_fee generated_cfg fixed outs rate _ _ _ coins a0 E) as C4.
+      assert (Hfee : tx_fee a = paid_fee a0).
+      { rewrite <- C4. unfold tx_fee. rewrite Hi, (sum_values_perm _ _ P). reflexivity. }
+      rewrite Hfee, (real_vsize_perm _ _ _ P), Hi in *.
+      eapply success_fee_covers_real; eauto.
+    Qed.
+
+    (** the fee stays below the rate applied to the worst-case estimate plus
+        one dust threshold of the change script; with change it is exactly the former *)
+    Theorem wallet_fee_upper : relay_floor_exact = true ->
+      tx_fee a < fee_for rate (a_est a) + dust_threshold (change_real k) (change_wit k) /\
+      (a_change a <> None -> tx_fee a = fee_for rate (a_est a)).
+    Proof.
+      intros HR.
+      destruct (wallet_author_rel a Hrun) as (a0 & E & P & Hi & _ & Hc & He & _).
+      pose proof (success_tx_fee generated_cfg fixed outs rate _ _ _ coins a0 E) as C4.
+      assert (Hfee : tx_fee a = paid_fee a0).
+      { rewrite <- C4. unfold tx_fee. rewrite Hi, (sum_values_perm _ _ P). reflexivity. }
+      rewrite Hfee, Hc, He. eapply success_fee_upper; eauto.
+    Qed.
+
+    (** the change output is never zero and never dust (for the script it really has) *)
+    Theorem wallet_change c : a_change a = Some c ->
+      0 < c /\ dust_threshold (change_real k) (change_wit k) <= c.
+    Proof.
+      intros Hc. destruct (wallet_author_rel a Hrun) as (a0 & E & _ & _ & _ & Hc' & _).
+      rewrite Hc' in Hc.
+      pose proof (success_change generated_cfg fixed outs rate _ _ _ coins HS Hchgr a0 E c Hc) as (H1 & _ & H3).
+      split; assumption.
+    Qed.
+
+    (** no negative amount, and the outputs never exceed the coins spent *)
+    Theorem wallet_amounts :
+      Forall (fun o => 0 <= out_value o) outs ->
+      Forall (fun o => 0 <= out_value o) (a_outs a) /\ sum_values (a_outs a) <= sum_coins (a_inputs a).
+    Proof.
+      intros Hnn. destruct (wallet_author_rel a Hrun) as (a0 & E & P & Hi & _).
+      edestruct (success_amounts generated_cfg fixed outs rate (change_decl k) (change_real k) (change_wit k) coins) as (F & S); eauto.
+      rewrite Hi, (sum_values_perm _ _ P). split; [|exact S].
+      eapply Permutation_Forall; [symmetry; exact P|exact F].
+    Qed.
+  End WSuccess.
+End Wallet.
